@@ -57,7 +57,7 @@ func ErrCode(err error) int {
 }
 
 // Watchdog is the time after which a call is declared hung.
-var Watchdog = 2 * time.Second
+var Watchdog = 10 * time.Second
 
 // Guard runs f under recover() in its own goroutine with a watchdog.
 func Guard(f func() error) Outcome {
